@@ -198,7 +198,14 @@ pub fn records(seed: u64, nhist: u64) -> Vec<Value> {
                   for variant in variants {
                     let mut w = base.w.clone();
                     let treasury_fb = w.names.ad("treasury");
-                    let v20 = legacy_0_4_20(&cur, k % 2 == 0, &treasury_fb);
+                    let mut v20 = legacy_0_4_20(&cur, k % 2 == 0, &treasury_fb);
+                    // legacy stores differ from a freshly instantiated one: halted at upgrade time, no monitor list at all
+                    if name == "staking" && (ver == "0.4.20" || ver == "0.4.18") {
+                        v20["stopped"] = json!(k % 2 == 1);
+                        if k % 3 == 1 {
+                            v20["monitors"] = Value::Null;
+                        }
+                    }
                     let msg = match path {
                         "v0_4_18_to_v0_4_20" => {
                             let (d1, d2) = (w.names.ad("oracle2"), w.names.ad("c1"));
